@@ -144,8 +144,46 @@ fn corpus() -> Vec<Case> {
                 v.extend(extra);
                 v
             };
-            // finding candidate D26: region exactly as tall as the terminal, empty frames scroll blank rows away
+            // D26 (fixed by 881c313): region exactly as tall as the terminal, empty frames scrolled blank rows away
             mk(5, 3, start(vec![Op::MClear, Op::MClear, Op::MClear, Op::Tick(0)]))
+        },
+        {
+            // audit 2, N1: last_line_count exceeds the height (3 kept rows + 1 live row on a 3-row terminal,
+            // then clear()): every later draw scrolls the terminal by one row
+            let hb = |x: &str| BarInit { len: Some(10), fin: Fin::AndLeave, tmpl: vec![TPart::Lit(x.into()), TPart::Pos], target: TInit::Hidden };
+            Case {
+                w: 5,
+                h: 3,
+                fail_at: vec![],
+                fail_from: None,
+                mp: TInit::Term(None),
+                bars: vec![hb("a"), hb("b"), hb("c"), hb("d")],
+                ops: vec![
+                    Op::SetAlign(true),
+                    Op::Insert(Loc::End, 0),
+                    Op::Insert(Loc::End, 1),
+                    Op::Insert(Loc::End, 2),
+                    Op::Tick(0),
+                    Op::Tick(1),
+                    Op::Tick(2),
+                    Op::Finish(0, Fin::AndLeave),
+                    Op::Finish(1, Fin::AndLeave),
+                    Op::Finish(2, Fin::AndLeave),
+                    Op::Drop(0),
+                    Op::Drop(1),
+                    Op::Drop(2),
+                    Op::Insert(Loc::End, 3),
+                    Op::Tick(3),
+                    Op::MClear,
+                    Op::Tick(3),
+                    Op::MClear,
+                    Op::Tick(3),
+                ]
+                .into_iter()
+                .enumerate()
+                .map(|(i, o)| ((i as u64 + 1) * 1_000_000_000, o))
+                .collect(),
+            }
         },
         {
             // fix 951c29f: "x" printed by a member must survive above the padding of the shrunken region
@@ -283,12 +321,10 @@ fn main() {
         cfg.bottom = i % 4 == 1; // a quarter of the MultiProgress cases may switch to MultiProgressAlignment::Bottom
         cases.push(gen_multi_case(&mut r, &cfg));
     }
-    // kept rows of finished, dropped bars: checked under Top alignment; under Bottom alignment their
-    // misplacement is the C04 finding D22 (checked by bin c04), not a C19 matter
-    let (bottom_cases, top_cases): (Vec<Case>, Vec<Case>) =
-        cases.into_iter().partition(|c| c.ops.iter().any(|(_, o)| matches!(o, Op::SetAlign(true))));
-    run_sys_cases(&mut s, &top_cases, &|c, _| c.ops.len() >= 4);
-    verif_harness::sysoracle::run_sys_cases_mode(&mut s, &bottom_cases, &|c, _| c.ops.len() >= 4, false);
+    // kept rows of finished, dropped bars are checked under both alignments (DESIGN.md D); a loss that
+    // the open finding D22 explains (bottom alignment, padded frame, rows of the reaped bar only) is
+    // classified 'bottom-alignment-kept-rows-misplaced'
+    run_sys_cases(&mut s, &cases, &|c, _| c.ops.len() >= 4);
     f64_ceiling_sweep(&mut s, &mut r, if a.thorough { 200_000 } else { 20_000 });
     verif_harness::sysoracle::wide_text_stream(&mut s, &mut r, if a.thorough { 2000 } else { 250 });
     s.finish();
